@@ -22,7 +22,7 @@ func init() {
 		{ID: "E1.userinfo.provider.only", Fn: "op.Userinfo", Kind: "call", Pat: "httphelper.MarshalJSON(__)", Max: 1},
 		{ID: "E1.access-token-verifier", Fn: "op.VerifyAccessToken", P: []string{"ctx", "token", "v"}, Kind: "ret ok", Max: 1,
 			Req: []string{"ok(oidc.CheckIssuer($r0, $v.Issuer))", "ok(oidc.CheckExpiration($r0, $v.Offset))", "ok(oidc.CheckSignature(_, _, _, $r0, $v.SupportedSignAlgs, $v.KeySet))"}},
-		{ID: "E8.access-token-verifier-per-request-issuer", Fn: "op.(*Provider).AccessTokenVerifier", P: []string{"o", "ctx"}, Kind: "ret any", Pat: "ret(op.NewAccessTokenVerifier(op.IssuerFromContext($ctx), $o.accessTokenKeySet, __))", Max: 1},
+		{ID: "E8.access-token-verifier-per-request-issuer", Fn: "op.(*Provider).AccessTokenVerifier", P: []string{"o", "ctx"}, Kind: "ret any", Pat: "ret(op.NewAccessTokenVerifier(op.IssuerFromContext($ctx), $o.accessTokenKeySet, __))", Max: 1, Only: true},
 		{ID: "E8.access-token-verifier-per-request-issuer.only", Fn: "op.(*Provider).AccessTokenVerifier", Kind: "ret any", Max: 1},
 		// introspection: the Active store is the only one and needs lookup + storage success (caller binding is in C05)
 		{ID: "E1.introspect.active.provider", Fn: "op.Introspect", Kind: "store", Pat: "store($resp.Active, true)", Max: 1,
